@@ -136,6 +136,37 @@ theorem verify_deadline (t : Nat) (e : Entry) : (soonerEntry t e).record.expires
   · simp only []
     omega
 
+/-! ### quiet after a removal -/
+
+/-- C05, last clause, at full strength on the model: run any history `pre`, then an iteration
+    `last` that emits `ServiceRemoved(ty, inst)`; in the iterations after it that receive no
+    datagram and no command (at any times `post`) no `ServiceResolved` for `inst` is emitted. -/
+def removed_quiet_full : Prop :=
+  ∀ (t0 : Nat) (intfs : List Intf) (pre : List (Nat × List Packet × List Command))
+    (last : Nat × List Packet × List Command) (post : List Nat) (ch ch' t2 : Nat) (ty inst : BList) (r : Resolved),
+    Out.event ch (.removed ty inst) ∈ (iter (run (init t0 intfs) pre).1 last.1 last.2.1 last.2.2).2 →
+    r.fullname = inst →
+    (t2, Out.event ch' (.resolved r)) ∉
+      (run (iter (run (init t0 intfs) pre).1 last.1 last.2.1 last.2.2).1 (post.map fun t => (t, [], []))).2
+
+/-- **removed_quiet, partial**: a `ServiceResolved` of `resolve_updated_instances` needs a USABLE
+    PTR entry of its type pointing to the instance in the cache of that moment.  So after a
+    removal caused by the expiry (goodbye or TTL) of the PTR, nothing is resolved for the
+    instance until a PTR for it is stored again.  Missing for the full clause: removals caused
+    by an expired SRV / address while the PTR lives on (with several SRV records of one
+    instance the first usable one can change by expiry alone). -/
+theorem removed_quiet_partial (s : State) (now : Nat) (u : List BList) (ch : Nat) (r : Resolved)
+    (h : Out.event ch (.resolved r) ∈ (resolveUpdated s now u).2) :
+    ∃ es, (r.ty, es) ∈ s.cache.ptr ∧ ∃ e ∈ es, aliasOf e = some r.fullname ∧ usable now e = true := by
+  unfold resolveUpdated at h
+  split at h
+  · cases h
+  · simp only [List.mem_append, List.mem_map, List.mem_filter] at h
+    rcases h with ⟨v, ⟨hv, _⟩, he⟩ | h
+    · cases he
+      exact mem_visits s now u v hv
+    · exact absurd h (noResolved_notifyRemoval _ _ ch r)
+
 /-! ### non-vacuity -/
 
 open C03 in
